@@ -10,6 +10,7 @@ Line protocol for C11 (molar / mass / volumetric views and units of measure).
   newm <th> <phases> <T> <P> <mat>           → ok <sid>
   setT|setP <s> <x>                          → ok
   setphase <s> <c> <R> | setphases <s> <ps> <R> | copylike <s> <o> <R> | thermo <s> <k> <R>
+  sync <s> <T> <P> <ph|-> <R> | mixinto <s> <phases of the inlets> <P> <R>
                                              → ok <0|1> <phase(s)>
   link <s> <o> <flow> <phase> <TP> | unlink <s>   → ok
   rdmol <s> | rdmass <s> | rdvol <s> <V>     → m <-|v<id>> <mat of floats>
@@ -76,6 +77,10 @@ def parseOp? (t : List String) : Option Op :=
   | ["unlink", s] => do pure (.unlink (← s.toNat?))
   | ["copylike", s, o, r] => do pure (.copyLike (← s.toNat?) (← o.toNat?) (← parseMat? r))
   | ["thermo", s, k, r] => do pure (.thermo (← s.toNat?) (← k.toNat?) (← parseMat? r))
+  | ["sync", s, T, P, ph, r] => do
+    pure (.sync (← s.toNat?) (← parseRat? T) (← parseRat? P) (← parsePh? ph) (← parseMat? r))
+  | ["mixinto", s, others, P, r] => do
+    pure (.mixInto (← s.toNat?) others.toList (← parseRat? P) (← parseMat? r))
   | ["rdmol", s] => do pure (.readMol (← s.toNat?))
   | ["rdmass", s] => do pure (.readMass (← s.toNat?))
   | ["rdvol", s, v] => do pure (.readVol (← s.toNat?) (← parseMat? v))
